@@ -6,6 +6,7 @@ import (
 	perptypes "github.com/elys-network/elys/x/perpetual/types"
 
 	"verifharness/chain"
+	"verifharness/gen"
 	"verifharness/run"
 )
 
@@ -55,8 +56,32 @@ func init() {
 				}
 			}
 		}
+		takeProfitSwitch(c, w, g)
 		free(n - n/2)
 	})
+}
+
+// takeProfitSwitch: governance switches the perpetual module's take-profit accounting on and, a few
+// blocks of traffic later, off again (every derived record that carried the take-profit terms has
+// to drop them in the block of the switch, not at the next perpetual operation on its pool).
+func takeProfitSwitch(c *run.Ctx, w *chain.World, g *gen.Gen) {
+	for _, on := range []bool{true, false} {
+		if w.Dead {
+			return
+		}
+		p := w.App.PerpetualKeeper.GetParams(w.ReadCtx())
+		if p.EnableTakeProfitCustodyLiabilities == on {
+			continue
+		}
+		p.EnableTakeProfitCustodyLiabilities = on
+		if w.GovExec("take-profit accounting", &perptypes.MsgUpdateParams{Authority: w.Gov, Params: &p}) {
+			c.Ev(map[bool]string{true: "take_profit_accounting_switched_on", false: "take_profit_accounting_switched_off"}[on])
+		}
+		// liquidity-pool traffic only: nothing refreshes the derived records on the way
+		w.Step(5)
+		w.Step(5)
+		g.Free(3, nil)
+	}
 }
 
 // exitAgainstCustody: low-leverage longs (tiny liabilities, so the pool health stays high) with
